@@ -6,6 +6,8 @@ open Romea Romea.Proto Romea.GridMap
 
     map.new <f64|f32> <dim> lo_1..lo_dim hi_1..hi_dim r      interval constructor
     map.sym <f64|f32> <dim> range r                          symmetric maximal-range constructor
+    map.newq / map.symq …                                     the same constructors, answering only `n N_1 … N_dim` (no centre is computed)
+    map.describe                                              what map.new answers, on the current grid
         -> `n N_1..N_dim first c_1..c_dim last c_1..c_dim`   (cell counts, centres of the first / last cells)
     map.idx p_1..p_dim      -> `i_1 .. i_dim`                 computeCellIndexes
     map.centre k_1..k_dim   -> `c_1 .. c_dim`                 computeCellCenterPosition (bad-op outside the table)
@@ -31,6 +33,9 @@ def describe (N : Num α) (g : Grid α) : String :=
   let firsts := g.map (fun a => match a.centre 0 with | some c => N.fmt c | none => "none")
   let lasts := g.map (fun a => match a.centre (a.n.toNat - 1) with | some c => N.fmt c | none => "none")
   unwords (["n"] ++ g.map (fun a => toString a.n) ++ ["first"] ++ firsts ++ ["last"] ++ lasts)
+
+def cells (g : Grid α) : String :=
+  unwords (["n"] ++ g.map (fun a => toString a.n))
 
 def doNew (N : Num α) (args : List String) : Option (Grid α) := do
   match args with
@@ -123,6 +128,27 @@ def step (st : St) (toks : List String) : St × String :=
     match doSym num32 args with
     | some g => ({ g64 := none, g32 := some g }, describe num32 g)
     | none => (st, "bad-op")
+  | "map.newq" :: "f64" :: args =>
+    match doNew num64 args with
+    | some g => ({ g64 := some g, g32 := none }, cells g)
+    | none => (st, "bad-op")
+  | "map.newq" :: "f32" :: args =>
+    match doNew num32 args with
+    | some g => ({ g64 := none, g32 := some g }, cells g)
+    | none => (st, "bad-op")
+  | "map.symq" :: "f64" :: args =>
+    match doSym num64 args with
+    | some g => ({ g64 := some g, g32 := none }, cells g)
+    | none => (st, "bad-op")
+  | "map.symq" :: "f32" :: args =>
+    match doSym num32 args with
+    | some g => ({ g64 := none, g32 := some g }, cells g)
+    | none => (st, "bad-op")
+  | ["map.describe"] =>
+    match st.g64, st.g32 with
+    | some g, _ => (st, describe num64 g)
+    | _, some g => (st, describe num32 g)
+    | _, _ => (st, "bad-op")
   | "map.idx" :: args =>
     match st.g64, st.g32 with
     | some g, _ => orBad st (doIdx num64 g args)
